@@ -32,6 +32,18 @@ EXPECT += [
     {"src": "m = {\"k\": {\"j\": 1}}; hid(&m[probe(\"k\")][probe(\"j\")]); 1", "field": "trace", "want": "(s:6b);(s:6a)", "finding": None,
      "why": "nested index operands of an address-of argument are evaluated once, left to right"},
 ]
+# a script function whose body runs into a Go-level fault that the interpreter contains: the call fails, its arguments ran once
+BAD = "func bad(a) { return make([]int64, 4611686018427387904) }\nfunc bad3(a, b, c) { return make([]int64, 4611686018427387904) }\n"
+EXPECT += [
+    {"src": BAD + "r = bad(probe(1)) ?? \"E\"; r", "field": "trace", "want": "(i:1)", "finding": None,
+     "why": "the argument of a call whose callee faults is evaluated exactly once"},
+    {"src": BAD + "r = bad3(probe(1), probe(2), probe(3)) ?? \"E\"; r", "field": "trace", "want": "(i:1);(i:2);(i:3)", "finding": None,
+     "why": "the arguments of a call whose callee faults are evaluated exactly once, in order"},
+    {"src": BAD + "r = (probe(1) + bad(probe(2)) + probe(3)) ?? \"E\"; r", "field": "trace", "want": "(i:1);(i:2)", "finding": None,
+     "why": "a faulting callee ends the evaluation: operands before it ran once, operands after it do not run"},
+    {"src": BAD + "r = bad(probe(1)) ?? \"E\"; r", "field": "result", "want": "s:45", "finding": None,
+     "why": "a fault inside a callee is an error of the call"},
+]
 
 
 def run(tier, seed, replay=None):
